@@ -12,7 +12,7 @@ from ..simdev import SimDevice
 PROPERTY = "C06"
 LEVEL = "fault_enumeration"
 RULE = ("fault enumeration on the handshake reply: for each (token,key,nonce) triple (two of them chosen so that the genuine reply contains the bytes 83 70) and key form (bytes / hex string), on a "
-        "fresh client, after a previous successful authentication with other credentials, and after an expired authentication with the same credentials: the genuine reply; every "
+        "fresh client, after a previous successful authentication with other credentials, and after an expired authentication with the same credentials: the genuine reply (at once, and as the answer to the retransmission after 1 / 2 unanswered requests); every "
         "single-bit flip of the 64-byte body; every single-bit flip of marker, size, magic and type nibble; every body "
         "length 0..80 != 64; 1..15 surplus bytes announced in the header's padding nibble; every packet type nibble in place of the reply; replies computed under 4 other keys. "
         "One execution = Device.authenticate + a following refresh + a further, genuinely answered authenticate and refresh against the reference device; the device-side wire "
@@ -68,6 +68,8 @@ def _triples():
 
 def faults():
     out = [("genuine",)]
+    # genuine, but the first 1 / 2 handshake requests of the call go unanswered (the genuine reply answers the retransmission)
+    out += [("genuine-late", 1), ("genuine-late", 2)]
     out += [("bodybit", b) for b in range(512)]
     out += [("hdrbit", b) for b in list(range(0, 40)) + [40, 41, 42, 43]]   # bytes 0..4 all bits, byte 5 low nibble
     out += [("length", n) for n in range(0, 81) if n != 64]
@@ -139,7 +141,11 @@ def execute(tidx: int, form: int, scen: int, fault):
     state = {"armed": False, "phase": "pre"}
 
     def script(req):
-        if req.kind == "handshake" and req.ok and state["armed"] and req.frame == token:
+        if req.kind == "handshake" and req.ok and state["armed"] and req.frame == token and fault[0] == "genuine-late":
+            state["hs"] = state.get("hs", 0) + 1
+            if state["hs"] <= fault[1]:
+                return
+        elif req.kind == "handshake" and req.ok and state["armed"] and req.frame == token:
             # every reply during the call under test is faulty (retransmissions included)
             req.send(mutate(req.responses[0], fault, key, nonce))
             return
@@ -239,9 +245,9 @@ def judge(st: Stats, case, obs, dev, marks, tidx, scen, fault):
     # the same connection then sees is not something C06 speaks about)
     desync = fault[0] == "hdrbit" and fault[1] < 32
     if marks.get("retry") != "ok" and not desync:
-        st.violation(f"{'genuine' if fault[0] == 'genuine' else 'after a faulty reply'}: a following genuine authentication fails ({marks.get('retry')})"[:90],
+        st.violation(f"{'genuine' if fault[0].startswith('genuine') else 'after a faulty reply'}: a following genuine authentication fails ({marks.get('retry')})"[:90],
                      case, "authenticated and exchanging", marks.get("retry"))
-    genuine = fault[0] == "genuine"
+    genuine = fault[0] in ("genuine", "genuine-late")
     if genuine:
         prob = None
         if res != "ok":
@@ -289,7 +295,7 @@ def run_shard(shard, tier) -> Stats:
     fl = faults()
     if light:
         # quick tier: for the extra credential triples run the genuine reply and a thin slice of the faults
-        fl = [f for i, f in enumerate(fl) if f[0] == "genuine" or i % (23 if scen != 4 else 331) == tidx % 23]
+        fl = [f for i, f in enumerate(fl) if f[0].startswith("genuine") or i % (23 if scen != 4 else 331) == tidx % 23]
     for fault in fl:
         case = {"triple": tidx, "form": form, "scenario": scen, "fault": list(fault)}
         obs, dev, marks = execute(tidx, form, scen, fault)
